@@ -412,6 +412,14 @@ func (st *State) assumeWF(v Val) {
 		st.assume(st.wfLeaf(l, v.L[i], st.alloc))
 		if l.Kind == LkTag && i+1 < len(ls) && ls[i+1].Kind == LkPayload {
 			st.assume(tImp(tEq(v.L[i], "0"), tEq(v.L[i+1], rnil)))
+			// a string-kinded dynamic value is boxed canonically (smt.go: boxString), whoever built it
+			if sk := st.stringKindedTag(v.L[i]); sk != "false" {
+				key := "boxwf|" + v.L[i] + "|" + v.L[i+1]
+				if !st.instd[key] {
+					st.instd[key] = true
+					st.assume(tImp(sk, tEq(v.L[i+1], boxString(unboxString(v.L[i+1])))))
+				}
+			}
 			if cw := st.x.prog.closedWorldTags(l.T); cw != nil {
 				var alts []Term
 				alts = append(alts, tEq(v.L[i], "0"))
@@ -458,6 +466,37 @@ func (st *State) elemsOf(sl [3]Term) Term {
 	return t
 }
 
+// tagsOf: the set of dynamic type tags of the elements of a slice of interface
+// values (uninterpreted in (arr, off, len), like elemsOf).
+func (st *State) tagsOf(sl [3]Term) Term {
+	st.x.d.DeclareFun("tagsof", []string{"Ref", "Int", "Int"}, "(Array Int Bool)")
+	t := "(tagsof " + sl[0] + " " + sl[1] + " " + sl[2] + ")"
+	if !st.instd["tags0|"+t] {
+		st.instd["tags0|"+t] = true
+		st.assume(tImp("(<= "+sl[2]+" 0)", tEq(t, "((as const (Array Int Bool)) false)")))
+	}
+	return t
+}
+
+// stringKindedTag: the disjunction "tag is one of the string-kinded named types".
+func (st *State) stringKindedTag(tag Term) Term {
+	var alts []Term
+	ids := make([]int, 0)
+	for id, t := range st.x.prog.typeByID {
+		if l := leavesOfSafe(t); len(l) == 1 && l[0].Sort == "String" && l[0].Kind == LkPlain {
+			ids = append(ids, id)
+		}
+	}
+	sort.Ints(ids)
+	for _, id := range ids {
+		alts = append(alts, tEq(tag, tInt(int64(id))))
+	}
+	if len(alts) == 0 {
+		return "false"
+	}
+	return tOr(alts...)
+}
+
 // memberAxiom: an element read from a slice belongs to the slice's element set.
 func (st *State) memberAxiom(ei elemRef, v Val) {
 	ls := leavesOf(v.T)
@@ -482,6 +521,7 @@ func (st *State) memberAxiom(ei elemRef, v Val) {
 			return
 		}
 		st.assume(tImp(tAnd(inRange, tOr(alts...)), tSel(st.elemsOf(ei.sl), unboxString(v.L[1]))))
+		st.assume(tImp(inRange, tSel(st.tagsOf(ei.sl), v.L[0])))
 	}
 }
 
